@@ -45,7 +45,7 @@ BOUNDS = {
                      ClipNiter=NITER, TabX=set(range(0, 7)), TabV=set(range(0, 6)), TabMax=4,
                      CovMaxN=3, CovDiag={1, 2, 4, 9}, CovOffN=6, CovShift=3, DefMaxW=12),
 }
-INVARIANTS = ["DefsAgree", "MomentsSane", "MedSafe", "MedRefines", "ClipRefines", "ClipNonEmpty", "ClipStopsOK",
+INVARIANTS = ["DefsAgree", "MomentsSane", "MedSafe", "MedRefines", "ClipRefines", "ClipNonEmpty", "ClipStopsOK", "ClipPredsAgree",
               "ClipStatsDefined", "InterpRefines", "CovSane"]
 ACTIONS = ["ChooseX1", "ChooseW1", "ChooseMu", "MedStart", "MedStep", "MedDone", "ChooseX2", "ChooseW2",
            "ChooseClipX", "ChooseClipW", "ClipStep", "ClipFinish", "ChooseNodes", "ChooseTabV", "ChooseCovDiag", "ChooseCovOff"]
@@ -320,6 +320,9 @@ def wmom_params(mus):
     return out
 
 
+GSTATS_CLIP_MAXLEN = 8      # = Stats!SClipEnumMax
+
+
 def jobs_of(case, opts, k):
     """abstract case exported by StatsMC -> list of (op, c, ps)"""
     op = case["op"]
@@ -336,8 +339,10 @@ def jobs_of(case, opts, k):
         c = {kk: case[kk] for kk in ("x", "w", "hasw", "nsn", "nsd")}
         nit = case["niter"]
         out = [("clip", c, [{"niter": it} for it in sorted({1, nit})])]
-        out.append(("gstats", {"x": [case["x"]], "w": [case["w"]], "hasw": case["hasw"], "nsn": case["nsn"], "nsd": case["nsd"]},
-                    [{"mode": "clip", "calcerr": True, "niter": nit}]))
+        if len(case["x"]) <= GSTATS_CLIP_MAXLEN:
+            # get_stats reports no subset: the spec enumerates every subset the clipping may end on (3^n at worst)
+            out.append(("gstats", {"x": [case["x"]], "w": [case["w"]], "hasw": case["hasw"], "nsn": case["nsn"], "nsd": case["nsd"]},
+                        [{"mode": "clip", "calcerr": True, "niter": nit}]))
         return out
     if op == "ip":
         return [("interp", {"xs": case["xs"], "vs": case["vs"], "us": case["us"]}, [{"v": 1}])]
